@@ -370,19 +370,25 @@ def construct_from_settings(cls, s):
 
 def obj_outcome(fn, *a, arm=None, **k):
     ctl = seams.ACTIVE
+    fired0 = ctl.fired if ctl is not None else 0
     if arm and ctl is not None:
         ctl.arm_interrupt(arm)
     try:
-        return ('ok', fn(*a, **k))
+        out = ('ok', fn(*a, **k))
     except seams.SimInterrupt as e:
-        return ('interrupted', str(e))
+        out = ('interrupted', str(e))
     except SimDeadlock as e:
-        return ('deadlock', str(e))
+        out = ('deadlock', str(e))
     except Exception as e:
-        return ('raise', type(e).__name__, str(e)[:200])
+        out = ('raise', type(e).__name__, str(e)[:200])
     finally:
         if ctl is not None:
             ctl.disarm()
+    if ctl is not None and ctl.fired > fired0 and out[0] != 'deadlock':
+        # an interrupt was injected into this operation: whether it surfaces as the interrupt,
+        # as an error of the clean-up code, or is swallowed, nothing is demanded of the operation
+        return ('interrupted', 'injected interrupt; operation ended with %s' % out[0])
+    return out
 
 
 def _fresh_fit(settings, sig, fs, f_range):
